@@ -25,6 +25,21 @@ CHECKS = {
           '§4 C01'),
 }
 
+CHECKS['C04'] = ('model_checking',
+  'explicit-state exploration of edit programs under nnx transforms vs eager execution',
+  'Edit programs (value updates, added/removed attributes, static changes) are run under '
+  'nnx.jit / nnx.remat on the real implementation and compared with eager execution on a fresh '
+  'copy of the same graph: return value, graphdef and state.',
+  'First version: two-step edit programs on one object; aliasing, control flow and call '
+  'histories are added in later revisions.', '§4 C04')
+CHECKS['C05'] = ('model_checking',
+  'bounded enumeration of DSL programs with one lifted-transformed child vs the plain program',
+  'DSL module programs with one child class wrapped in nn.jit / nn.remat / nn.checkpoint are '
+  'run on the real implementation and compared with the untransformed program: output and '
+  'variable tree (modulo the auto-generated name of the transformed class).',
+  'First version: init only, three bodies; filters, histories and control-flow transforms are '
+  'added in later revisions.', '§4 C05')
+
 NOT_APPLICABLE = {}
 
 
